@@ -89,3 +89,9 @@ package inproc
 // ---- round 12: the scheme string ----
 //@ func (inprocTran).Scheme
 //@   ensures result == "inproc"
+
+// ---- round 12 (C10 "Closing a socket makes every ... blocked ... return"): a Dial parked on the
+// package-wide condition variable waits for a change of the listener registry or of a listener's
+// accepter list; Close changes both, so it wakes every waiter before it lets go of the lock ----
+//@ func (*listener).Close
+//@   before call:Unlock#1 assert called("Broadcast") && isnil(l.accepters)
